@@ -519,6 +519,11 @@ type c08RDog struct{ name string }
 type c08RCat struct{ name string }
 type c08RQuery struct{}
 
+// c08RHen is a Resolver object that is no struct: a named map type (a document store's record).
+type c08RHen map[string]interface{}
+
+func (h c08RHen) Resolve(f *ggql.Field, _ map[string]interface{}) (interface{}, error) { return h[f.Name], nil }
+
 func (d *c08RDog) Resolve(f *ggql.Field, _ map[string]interface{}) (interface{}, error) {
 	if f.Name == "barks" {
 		return 3, nil
@@ -539,6 +544,10 @@ func (q *c08RQuery) Resolve(f *ggql.Field, _ map[string]interface{}) (interface{
 		return &c08RDog{"rex"}, nil
 	case "friend":
 		return &c08RCat{"tom"}, nil
+	case "hen":
+		return c08RHen{"name": "henrietta", "eggs": 4}, nil
+	case "flock":
+		return []interface{}{c08RHen{"name": "h1", "eggs": 1}, &c08RDog{"shep"}}, nil
 	}
 	return []interface{}{&c08RCat{"kit"}, &c08RDog{"fido"}, nil, &c08RCat{"tom"}}, nil
 }
@@ -547,7 +556,7 @@ func (q *c08RQuery) Resolve(f *ggql.Field, _ map[string]interface{}) (interface{
 // registered for their object types. Behind interface- and union-typed fields they are resolved as their concrete types:
 // __typename, fragments on the concrete type, on the interface and on the union.
 func c08RegisteredResolvers(c *run.Ctx) {
-	const sdl = "type Query { pet: Pet must: Pet! pets: [Pet] friend: Friend friends: [Friend!] }\ninterface Pet { name: String }\nunion Friend = Dog | Cat\ntype Dog implements Pet { name: String barks: Int }\ntype Cat implements Pet { name: String lives: Int }\n"
+	const sdl = "type Query { pet: Pet must: Pet! pets: [Pet] friend: Friend friends: [Friend!] hen: Pet flock: [Pet] }\ninterface Pet { name: String }\nunion Friend = Dog | Cat\ntype Dog implements Pet { name: String barks: Int }\ntype Cat implements Pet { name: String lives: Int }\ntype Hen implements Pet { name: String eggs: Int }\n"
 	cases := []struct{ text, want string }{
 		{`{ pet { __typename name ... on Dog { barks } ... on Cat { lives } } }`, `{"pet":{"__typename":"Dog","barks":3,"name":"rex"}}`},
 		{`{ must { ... on Dog { n: name } ... on Friend { __typename } } }`, `{"must":{"__typename":"Dog","n":"rex"}}`},
@@ -555,6 +564,8 @@ func c08RegisteredResolvers(c *run.Ctx) {
 			`{"pets":[{"__typename":"Cat","lives":9},{"__typename":"Dog","barks":3,"name":"fido"},null,{"__typename":"Cat","lives":9}]}`},
 		{`{ friend { __typename ... on Pet { name } ... on Cat { lives } } }`, `{"friend":{"__typename":"Cat","lives":9,"name":"tom"}}`},
 		{`{ friends { ... on Dog { barks } ... on Cat { name } } }`, `{"friends":[{"name":"kit"},{"barks":3},null,{"name":"tom"}]}`},
+		{`{ hen { __typename name ... on Hen { eggs } ... on Dog { barks } } }`, `{"hen":{"__typename":"Hen","eggs":4,"name":"henrietta"}}`},
+		{`{ flock { __typename ... on Hen { eggs } ... on Dog { barks } ... on Pet { name } } }`, `{"flock":[{"__typename":"Hen","eggs":1,"name":"h1"},{"__typename":"Dog","barks":3,"name":"shep"}]}`},
 	}
 	for round := 0; round < 3; round++ {
 		root := ggql.NewRoot(&c08RQuery{})
@@ -564,6 +575,9 @@ func c08RegisteredResolvers(c *run.Ctx) {
 		}
 		if err == nil {
 			err = root.RegisterType(&c08RCat{}, "Cat")
+		}
+		if err == nil {
+			err = root.RegisterType(c08RHen{}, "Hen")
 		}
 		if err != nil {
 			c.Violation("c08-schema-rejected", map[string]interface{}{"sdl": sdl, "error": err.Error()})
